@@ -713,3 +713,122 @@ StepModify.native_replay = _actor_replay('modify', lambda i: {'mods': [{'ack': i
                                                                          for k in range(i['mods_len'])]})
 TrackerRemove.native_replay = _actor_replay('ack', lambda i: {'ids': i['ids']})
 TrackerModify.native_replay = _actor_replay('modify', lambda i: {'mods': i['mods']})
+
+
+# ---------------------------------------------------------------------- the actor loop glue (C01.f, C04.f)
+
+class ActorLoop(ActorStep):
+    """SubscriptionActor::start's loop (`select!{ recv => receive(..).await, poll_next_expired => handle_expired_messages }`)
+    driven from an arbitrary actor state with at most one request in the mailbox until it parks."""
+    tier = 'T3'
+
+    def __init__(self, ctx, n_out=2, n_back=1, k=2, with_request=True, tags='conserve deadline', id_prefix='C01.f'):
+        ActorStep.__init__(self, ctx, n_out, n_back, k, tags, id_prefix)
+        self.with_request = with_request
+        self.desc = ('the subscription actor loop itself (select! over mailbox and expiry): ' +
+                     ('one PostMessages request in the mailbox' if with_request else 'empty mailbox') +
+                     ': handled exactly once; everything due at the clock reading is re-queued; parks with the timer armed for the earliest remaining deadline')
+        self.unroll = 8
+        self.max_paths = 20000
+
+    def body(self, ip, p):
+        ctx = ip.ctx
+        from models_async import ReceiverM, poll_future
+        p.timers_never_fire = True
+        p.signals_never_fire = True      # nobody signals the tracker's private Notify while the loop is parked
+        st = sym_actor(ctx, p, self.n_out, self.n_back, deleted=False)
+        items, toks, n = [], [], z3.IntVal(0)
+        if self.with_request:
+            toks = [p.fresh('new%d_tok' % i) for i in range(self.k)]
+            n = p.fresh('batch_len')
+            p.assume(z3.And(n >= 1, n <= self.k))
+            for i, t in enumerate(toks):
+                for j in range(i + 1, len(toks)):
+                    p.assume(t != toks[j])
+                for d in st.ds:
+                    p.assume(z3.Implies(d.used, d.tok != t))
+                for b in st.btoks:
+                    p.assume(b != t)
+            ev = ctx.src.enum_variants('SubscriptionRequest')
+            idx = [i for i, (nm, _) in enumerate(ev) if nm == 'PostMessages'][0]
+            items = [Enum('SubscriptionRequest', idx, {idx: (Seq([ArcTok(t, 'TopicMessage') for t in toks], n, 'vec'),)})]
+        if getattr(self, 'lazy_len', False):
+            # any backlog length (the elements beyond the slots are never inspected by the loop)
+            biglen = p.fresh('backlog_len64')
+            p.assume(z3.And(biglen >= self.n_back, biglen < (1 << 64), st.blen == self.n_back))
+            a = st.cell.v
+            f0 = actor_fields(ctx, a)
+            order = ctx.src.struct_fields('SubscriptionActor')
+            fs = list(a.fields)
+            fs[order.index('backlog')] = mk(ctx, 'Messages', list=Seq(f0['backlog'].elems, biglen, 'deque',
+                                                                       lazy=lambda ip_: ArcTok(ip_.path.fresh('lazy_tok'), 'TopicMessage')))
+            st.cell.v = Agg(a.name, fs)
+        rx_cell = Cell(ReceiverM(items), 'mailbox')
+        # the inner `poll` async block of SubscriptionActor::start
+        body_fn = None
+        for name, f in ctx.dump.functions.items():
+            if name.endswith('>::start::{closure#0}::{closure#0}') and 'subscription_actor' in name:
+                body_fn = f
+        if body_fn is None:
+            raise Unsupported('actor loop body not found')
+        body_fn.parse()
+        byname = {'receiver': Ref(Loc(rx_cell), True), 'actor': Ref(Loc(st.cell), True)}
+        nup = max(body_fn.upvar_names) + 1 if body_fn.upvar_names else 0
+        upvars = []
+        for i in range(nup):
+            nm = body_fn.upvar_names.get(i)
+            if nm not in byname:
+                raise Unsupported('actor loop captures %r' % (nm,))
+            upvars.append(byname[nm])
+        coro = Enum('coroutine:' + body_fn.name, 0, {}, upvars)
+        cell = Cell(coro, 'actor-loop')
+        r = run_to_end(poll_future(ip, Loc(cell)))
+        return {'st': st, 'toks': toks, 'n': n, 'parked': r.discr == 1, 'log': list(p.log), 'left': len(rx_cell.v.items), 'args': {}}
+
+    def claims(self, ip, p, res):
+        ctx = ip.ctx
+        st = res['st']
+        f = actor_fields(ctx, st.cell.v)
+        m2, s2 = tracker_parts(ctx, f['outstanding'])
+        bl2 = f['backlog']
+        out = [tagged('conserve deadline', 'the loop parks (it neither ends nor panics)', res['parked']),
+               tagged('conserve', 'the request was taken from the mailbox', res['left'] == 0),
+               tagged('conserve deadline', 'invariant I after', invariant_actor(ctx, st, st.cell.v))]
+        # conservation incl. the posted tokens
+        def in_backlog(t):
+            return z3.Or([z3.And(bl2.n > j, e.tok == t) for j, e in enumerate(bl2.elems)] or [False])
+        def in_out(t):
+            return z3.Or([z3.And(u, pm_parts(ctx, v)[0] == t) for u, k, v in m2.slots] or [False])
+        total = z3.IntVal(0)
+        conj = []
+        for i, t in enumerate(st.btoks):
+            conj.append(z3.Implies(st.blen > i, in_backlog(t)))
+            total = total + z3.If(st.blen > i, 1, 0)
+        for d in st.ds:
+            conj.append(z3.Implies(d.used, z3.Xor(in_backlog(d.tok), in_out(d.tok))))
+            total = total + z3.If(d.used, 1, 0)
+        for i, t in enumerate(res['toks']):
+            conj.append(z3.Implies(res['n'] > i, in_backlog(t)))
+            total = total + z3.If(res['n'] > i, 1, 0)
+        conj.append(bl2.n + m2.count() == total)
+        out.append(tagged('conserve', 'every held or posted token is in the backlog or outstanding afterwards, nothing else', z3.And(conj)))
+        nows = getattr(p, 'clock_readings', [])
+        if nows:
+            last = nows[-1]
+            out.append(tagged('deadline', 'nothing that was due at the last clock reading is left outstanding',
+                              z3.And([z3.Implies(u, pm_parts(ctx, v)[2] > last) for u, k, v in m2.slots] or [True])))
+            out.append(tagged('deadline', 'nothing is re-queued before its deadline',
+                              z3.And([z3.Implies(z3.And(d.used, in_backlog(d.tok)), d.dl <= last) for d in st.ds] or [True])))
+        sleeps = [e for e in res['log'] if e[0] == 'sleep_until']
+        if sleeps:
+            when = sleeps[-1][1].t
+            out.append(tagged('deadline', 'C04.f: the timer is armed for the earliest remaining deadline',
+                              z3.And([m2.count() > 0] + [z3.Implies(u, pm_parts(ctx, v)[2] >= when) for u, k, v in m2.slots] +
+                                     [z3.Or([z3.And(u, pm_parts(ctx, v)[2] == when) for u, k, v in m2.slots] or [False])])))
+            out.append(Cover('timer armed'))
+        else:
+            out.append(tagged('deadline', 'C04.f: no timer only when nothing is outstanding', m2.count() == 0))
+        out.append(Cover('something expired and was re-queued', z3.Or([z3.And(d.used, in_backlog(d.tok)) for d in st.ds] or [False])))
+        if self.with_request:
+            out.append(Cover('request handled'))
+        return out
